@@ -131,3 +131,72 @@ package types
 //@   requires 0 <= b && b <= 1 && c >= 0 && v == b + 35 + 2 * c
 //@   requires 2 * id + 35 <= v && v <= 2 * id + 36
 //@   ensures id == c && v - 2 * c - 8 == b + 27
+
+// ---- Sender: what each signer hands to recoverPlain (which accepts only v in {27, 28} and
+// in-range r, s, see above), and what it refuses before getting there.
+//@ directive noeffect core/types.rlpHash
+//@ directive noeffect core/types.prefixedRlpHash
+
+// The accessors and the signing-hash functions Sender reads through are assumed not to write
+// anything (they are one-line reads of tx.inner and an RLP hash of its fields).
+//@ directive bigconst big8 8
+//@ directive noeffect types.Transaction).RawSignatureValues
+//@ directive noeffect types.Transaction).ChainId
+//@ directive noeffect types.Transaction).Protected
+//@ directive noeffect types.HomesteadSigner).Hash
+//@ directive noeffect types.FrontierSigner).Hash
+//@ directive noeffect types.EIP155Signer).Hash
+
+// Homestead: legacy transactions only; V as stored; low-s enforced.
+//@ func (hs HomesteadSigner) Sender(tx *Transaction) (addr common.Address, err error)
+//@   serves C03
+//@   mutates
+//@   ghostvar v0 int = 0
+//@   oncall RawSignatureValues: v0 = bigval(result0)
+//@   ensures txTypeOf(tx) != 0 ==> err == ErrTxTypeNotSupported
+//@   atcall recoverPlain#1 requires bigval(arg4) == v0 && arg5
+
+// Frontier: legacy transactions only; V as stored; high s still allowed.
+//@ func (fs FrontierSigner) Sender(tx *Transaction) (addr common.Address, err error)
+//@   serves C03
+//@   mutates
+//@   ghostvar v0 int = 0
+//@   oncall RawSignatureValues: v0 = bigval(result0)
+//@   ensures txTypeOf(tx) != 0 ==> err == ErrTxTypeNotSupported
+//@   atcall recoverPlain#1 requires bigval(arg4) == v0 && !arg5
+
+// EIP-155: a protected transaction is accepted only for the signer's chain id, and the value
+// checked by recoverPlain is V - 2*chainId - 8 (27 or 28 exactly when V = {35,36} + 2*chainId).
+//@ func (s EIP155Signer) Sender(tx *Transaction) (addr common.Address, err error)
+//@   serves C03
+//@   requires s.chainId != nil
+//@   mutates
+//@   ghostvar v0 int = 0
+//@   ghostvar cid int = 0
+//@   ghostvar prot bool = false
+//@   oncall RawSignatureValues: v0 = bigval(result0)
+//@   oncall ChainId: cid = bigval(result)
+//@   oncall Protected: prot = result
+//@   ensures txTypeOf(tx) != 0 ==> err == ErrTxTypeNotSupported
+//@   ensures err == nil && prot ==> cid == bigval(s.chainId)
+//@   atcall recoverPlain#1 requires bigval(arg4) == v0 - 2 * bigval(s.chainId) - 8 && arg5
+
+// Typed transactions (and legacy ones, delegated): a type outside the signer's fork set is
+// refused; a typed transaction is accepted only for the signer's chain id, and its recovery
+// id 0/1 reaches recoverPlain as 27/28.
+//@ directive noeffect types.modernSigner).Hash
+//@ directive noeffect types.modernSigner).supportsType
+//@ directive noeffect types.Signer).Sender
+//@ func (s *modernSigner) Sender(tx *Transaction) (addr common.Address, err error)
+//@   serves C03
+//@   requires s.chainID != nil
+//@   mutates
+//@   ghostvar v0 int = 0
+//@   ghostvar cid int = 0
+//@   ghostvar sup bool = true
+//@   oncall RawSignatureValues: v0 = bigval(result0)
+//@   oncall ChainId: cid = bigval(result)
+//@   oncall supportsType: sup = result
+//@   ensures !sup ==> err == ErrTxTypeNotSupported
+//@   ensures err == nil && txTypeOf(tx) != 0 ==> cid == bigval(s.chainID)
+//@   atcall recoverPlain#1 requires bigval(arg4) == v0 + 27 && arg5
